@@ -67,11 +67,24 @@ Fixpoint push (fuel : nat) (b : bus) (t : topic) (m : msg) : bus :=
 Definition deliver (fuel : nat) (b : bus) (c : consumer) (t : topic) (m : msg) : bus :=
   fold_left (fun b (tm : topic * msg) => push fuel b (fst tm) (snd tm)) (h c t m) (record b c t m).
 
+(* the backlog of topic t is replayed to c by walking the log BY POSITION while it may grow -- Python's
+   `for message in self._topics[topic]` over a list that handlers called on the way may append to; [n] bounds the walk *)
+Fixpoint replay (n : nat) (fuel : nat) (b : bus) (c : consumer) (t : topic) (i : nat) : bus :=
+  match n with
+  | O => b
+  | S n' =>
+      match nth_error (log_of b t) i with
+      | None => b
+      | Some m => replay n' fuel (deliver fuel b c t m) c t (S i)
+      end
+  end.
+Definition maxgrow : nat := 64.
+
 (* InternalStateServer.subscribe: register, then replay the topic's log, topic by topic *)
 Definition subscribe (fuel : nat) (b : bus) (c : consumer) (ts : list topic) : bus :=
   fold_left (fun b t =>
                let b1 := add_sub b c t in
-               fold_left (fun b m => deliver fuel b c t m) (log_of b1 t) b1)
+               replay (length (log_of b1 t) + maxgrow) fuel b1 c t 0)
             ts b.
 
 Inductive op := Subscribe (c : consumer) (ts : list topic) | Produce (t : topic) (m : msg).
@@ -119,6 +132,24 @@ Definition oracle (o : observed) : bool :=
 
 Definition maxfuel : nat := 40.
 
+(* the topic a message value was published on (values are unique per history), and: do all handlers publish to
+   strictly higher topics only?  That is the scope of the exactly-once-in-order theorem (and of oracle 20); with
+   publish cycles the synchronous bus is compared with the model only *)
+Definition topic_of_value (tab : list (consumer * msg * list (topic * msg))) (ops : list op) (v : msg) : option topic :=
+  match find (fun o : op => match o with Produce _ m => Z.eqb m v | _ => false end) ops with
+  | Some (Produce t _) => Some t
+  | _ => match find (fun tm : topic * msg => Z.eqb (snd tm) v) (flat_map (fun e : consumer * msg * list (topic * msg) => snd e) tab) with
+         | Some tm => Some (fst tm)
+         | None => None
+         end
+  end.
+Definition upward (tab : list (consumer * msg * list (topic * msg))) (ops : list op) : bool :=
+  forallb (fun e : consumer * msg * list (topic * msg) =>
+             match topic_of_value tab ops (snd (fst e)) with
+             | Some t => forallb (fun tm : topic * msg => Pos.ltb t (fst tm)) (snd e)
+             | None => true
+             end) tab.
+
 (* reason codes: 1 logs differ, 2 received sequences differ, 3 subscriber sets/order differ,
    20 the observed history violates exactly-once-in-order *)
 Definition check (c : case) : list Z :=
@@ -132,4 +163,4 @@ Definition check (c : case) : list Z :=
    then [] else [2%Z]) ++
   (if forallb (fun ts : topic * list consumer => list_eqb Pos.eqb (subs_of b (fst ts)) (snd ts)) (o_subs o)
    then [] else [3%Z]) ++
-  (if oracle o then [] else [20%Z]).
+  (if negb (upward tab ops) || oracle o then [] else [20%Z]).
